@@ -240,6 +240,19 @@ def tie_canonical(case, labels):
     return sorted(sorted(sig[m] for m in g) for g in groups.values())
 
 
+def base_rate_tie(base):
+    """True when two base modalities of the original fit have exactly equal training target rates"""
+    b = base.get("base") if isinstance(base, dict) else None
+    if not isinstance(b, dict):
+        return False
+    rates = []
+    for ms in b.get("train", []):
+        n = sum(c for _, c in ms)
+        if n:
+            rates.append(Fraction(sum(v * c for v, c in ms), n))
+    return len(set(rates)) < len(rates)
+
+
 class C11(Prop):
     pid = "C11"
     coq_targets = ["Properties/C11.vo", "Model/CheckC01.vo"]
@@ -313,6 +326,11 @@ class C11(Prop):
                 if case["ftype"] != "quant" and \
                         tie_canonical(case, r["row_labels"]) == tie_canonical(case, o["row_labels"]):
                     continue   # same grouping up to a swap of exactly tied (indistinguishable) modalities
+                if r["name"].startswith("rename") and case["ftype"] == "categ" and base_rate_tie(out["base"]):
+                    # a categorical feature is ordered by target rate; two base modalities (the default group
+                    # '__OTHER__' included) with EXACTLY equal rates are ordered by their names, so a renaming
+                    # may legitimately swap them: exact ties are accepted in any order
+                    continue
                 return False, (f"{r['name']}: the partition of rows induced by transform differs from the "
                                f"original encoding's ({len(partition(r['row_labels']))} vs "
                                f"{len(partition(o['row_labels']))} groups)")
